@@ -9,7 +9,8 @@ TECHNIQUE = ('resolved interface analysis of emitted C text (helper calls with t
              'symbolic evaluation of the wrapper generator over the complete partition of the `**kwargs` state; taint analysis (container element -> '
              'representation-level string comparison) over FunctionArguments.c with guards decided by a truth table over {exact str, str subclass, not a str}; '
              'interprocedural linear forms (argnames + k*num_pos_args) of the table pointers of the keyword parser; provenance (guard sets) of the positional-only counters of the wrapper generator; '
-             'truth table of the unknown-keyword exits over {kwds2} x {ignore flag}')
+             'truth table of the unknown-keyword exits over {kwds2} x {ignore flag}; abstract execution of the generator methods that emit the parser call / the *args slice over the finite domain '
+             '{positional-only count} x {positional count} x {keyword-only count} x {*args} with evaluation of the emitted C count expressions for every nargs (round 9, s9C24)')
 DECIDES = ('C24-I5: every emitted call to a FunctionArguments.c helper has the arity of every #if variant of the helper; '
            'C24-FAM: every __Pyx_<Family>_<fastvar> helper that can be emitted is defined with that arity under every feasible assignment of '
            'the #if conditions of the fastcall section; C24-GUARD: the variant chosen by Signature.fastvar uses the fastcall argument layout '
@@ -35,9 +36,12 @@ DECIDES = ('C24-I5: every emitted call to a FunctionArguments.c helper has the a
            'C24-KWCOUNT: the num_kwargs argument of __Pyx_ParseKeywords is the keyword count, the num_pos_args argument is 0 or a C variable defined from nargs in the same function; '
            'C24-UNKNOWN: the unexpected-keyword exit of every parser that gets the flags is reachable exactly for (kwds2 NULL, ignore_unknown_kwargs 0) — truth table of its enclosing conditions; '
            'C24-KWSTR: __Pyx_CheckKeywordStrings is emitted on every path before __Pyx_KwargsAsDict_*; '
-           'C24-VCSELF: a CyFunction call path that takes self from args[0] / item 0 of the tuple passes on args+1, nargs-1 / the slice from 1.')
+           'C24-VCSELF: a CyFunction call path that takes self from args[0] / item 0 of the tuple passes on args+1, nargs-1 / the slice from 1; '
+           'C24-POSRANGE (round 9, seed C24n): for every signature shape (P positional-only, M positional, keyword-only count, *args) and every nargs the emitted num_pos_args operand of __Pyx_ParseKeywords '
+           '(with the C definitions `Py_ssize_t X = ...` it refers to) evaluates to clamp(nargs - P, 0, M - P), the number of keyword-table names bound positionally, and the values window starts at P whenever the table is non-empty; '
+           'C24-STARSLICE: the operands of __Pyx_ArgsSlice_<variant>(args, start, stop) evaluate to (M, nargs) for every call with surplus positional arguments (and the whole-tuple shortcut is taken for M = 0 only).')
 NOT_DECIDED = ('the rest of the keyword matching algorithm (the order of the two search loops, the `extracted` counter of the dict parser), the arithmetic of the emitted switch statements '
-               '(case numbers, the enumerate()/range() values behind values[i] in the unpacking, defaults and conversion emitters, the start of the *args slice), reference counting of values[], and S3 (raise => error return inside the C helpers, needs a C CFG); '
+               '(case numbers, the enumerate()/range() values behind values[i] in the unpacking, defaults and conversion emitters), reference counting of values[], and S3 (raise => error return inside the C helpers, needs a C CFG); '
                'I8 is decided for the emitters in Nodes.py only (ExprNodes collects helper names in a set and loads them in a loop).')
 ASSUMPTIONS = ['preprocessor identifiers of the fastcall section are independent 0/1 switches (version macros take the values around '
                'each threshold they are compared with); configurations that hit #error are infeasible',
@@ -95,7 +99,9 @@ MUTATIONS = [
      'C24-POSONLY domain (7 variants)'),
     ('Cython/Compiler/Nodes.py', 'num_pos_args / num_kwargs operands of __Pyx_ParseKeywords exchanged; __Pyx_CheckKeywordStrings emission dropped', 'C24-KWCOUNT; C24-KWSTR'),
     ('Cython/Utility/CythonFunction.c', 'Vectorcall_O without `args += 1`; CallAsMethod slices from 0', 'C24-VCSELF (2 variants)'),
-    ('Cython/Compiler/Nodes.py', 'defaults written to values[i+1]; *args sliced from 0; FunctionArguments.c: `extracted++` dropped; casts around swapped arguments', 'MISSED (arithmetic / run-time counts, see NOT_DECIDED)'),
+    ('Cython/Compiler/Nodes.py', 'round 9 (mutants/C24/posrange-*, starslice-*): seed C24n (clamp limit = max_positional_args) and siblings: clamp dropped / skipped with positional-only parameters / taking the larger value, '
+                                 'kwd_pos_args without the 0 floor, subtraction only for P > 1, values window decided against max_positional_args; *args slice from M - 1 / 0, whole tuple for M <= 1', 'C24-POSRANGE (6 variants), C24-STARSLICE (3 variants)'),
+    ('Cython/Compiler/Nodes.py', 'defaults written to values[i+1]; FunctionArguments.c: `extracted++` dropped; casts around swapped arguments', 'MISSED (arithmetic / run-time counts, see NOT_DECIDED)'),
 ]
 # Behaviour-preserving edits tried: all stay silent.
 PRESERVING = [
@@ -114,6 +120,8 @@ PRESERVING = [
     ('Cython/Utility/FunctionArguments.c', 'index through a local alias of argnames; parameters of _str renamed with local aliases; unknown-keyword test written with an empty `if (ignore) {}` arm'),
     ('Cython/Compiler/Nodes.py', 'counting loop with `if not arg.pos_only: continue` and an alias; the correct half of seed C24d (caller passes num_pos_only_args); pos_arg_count renamed'),
     ('Cython/Utility/CythonFunction.c', '`args++; --nargs;`'),
+    ('Cython/Compiler/Nodes.py', 'round 9 (mutants/C24/keep-posrange-*, keep-starslice-*): clamp with `<=` and renamed C variables/locals; kwd_pos_args emitted by an extracted helper method + limit counted with a sum() comprehension; '
+                                 'elif chain rewritten as sequential ifs; slice start through an alias with %-formatting'),
 ]
 
 
@@ -123,7 +131,7 @@ def run(ctx):
     sites = list(pC24.emitters(ctx, names, domain))
     fam, guard = pC24.rule_families(ctx, sites, kinds, domain)
     g3, g4 = pC24.rule_labels(ctx)
-    from ..rules import sC24
+    from ..rules import sC24, s9C24
     return [pC24.rule_arity(ctx, sites), fam, guard, pC24.rule_proto_def(ctx), pC24.rule_order(ctx, sites),
             pC24.rule_sections(ctx, sites, domain), pC24.rule_raise_exit(ctx, sites, domain), g3, g4, pC24.rule_flags(ctx),
-            sC24.rule_kw2(ctx), sC24.rule_exact(ctx), sC24.rule_idx(ctx), sC24.rule_posonly(ctx), sC24.rule_kwstr(ctx), sC24.rule_vcself(ctx), sC24.rule_unknown(ctx), sC24.rule_kwcount(ctx)]
+            sC24.rule_kw2(ctx), sC24.rule_exact(ctx), sC24.rule_idx(ctx), sC24.rule_posonly(ctx), sC24.rule_kwstr(ctx), sC24.rule_vcself(ctx), sC24.rule_unknown(ctx), sC24.rule_kwcount(ctx), s9C24.rule_posrange(ctx), s9C24.rule_starslice(ctx)]
